@@ -200,6 +200,8 @@ MUTANTS: dict[str, dict[str, list[tuple[str, str, str]]]] = {
 """, '')],
     },
     'C16': {
+        'cancelled-caller-kills-executor': [('forml/runtime/_service/prediction.py',
+                                             '        outcome.set_running_or_notify_cancel()\n', '')],
         'abtest-select-unsynchronised': [('forml/application/_strategy.py',
                                           '        with self._lock:  # selections arrive from a pool of threads',
                                           '        if True:')],
